@@ -433,11 +433,11 @@ def run(tier, seed):
         replay(chk, g, list(core.edge_cover_paths(g)), params, label + '-edges')
         depth = 4 if thorough else 3
         dfs = list(core.paths_dfs(g, depth, max_noop=depth))
-        if not thorough and len(dfs) > 4000:
-            dfs = rng.sample(dfs, 4000)
+        if not thorough and len(dfs) > 1200:
+            dfs = rng.sample(dfs, 1200)
         replay(chk, g, dfs, params, label + '-depth%d' % depth)
-        replay(chk, g, list(core.random_walks(g, 3000 if thorough else 500, 14, rng)), params, label + '-walks')
-        replay_coalesced(chk, g, list(core.random_walks(g, 6000 if thorough else 1500, 12, rng)) +
+        replay(chk, g, list(core.random_walks(g, 3000 if thorough else 150, 14, rng)), params, label + '-walks')
+        replay_coalesced(chk, g, list(core.random_walks(g, 6000 if thorough else 400, 12, rng)) +
                          list(core.edge_cover_paths(g)), params, label, rng)
         # acceptable credentials are accepted (reachability in the model's own graph, then on the code)
         if real:
@@ -472,12 +472,17 @@ def run(tier, seed):
                                  nproc=6)
     chk.sample({'recorded': [a for a, s in batch[0]][:6]})
     # canary: a REJECTED recorded as OK
-    tr = [list(x) for x in batch[0]]
-    for j, (a, st) in enumerate(tr):
-        if st['resp'] == ('REJECTED',):
-            tr[j] = (a, dict(st, resp=('OK',)))
-            break
-    rej, _ = core.validate_traces('AuthServer', ['resp', 'st'], [[tuple(x) for x in tr]], ACTIONS, cfg_consts=trace_cfg(params), nproc=1)
+    params = {'real': False, 'creds': False}
+    drv = AuthServerDriver(False, False)
+    tr = [({'n': 'Init'}, drv.project())]
+    for n_, a_ in (('FirstByte', (True,)), ('Auth', ('unknown', 'none', 'ok')), ('Begin', ())):
+        drv.apply(n_, a_)
+        rec = {'n': n_}
+        rec.update(dict(zip(ACTIONS[n_], a_)))
+        tr.append((rec, drv.project()))
+    drv.close()
+    tr[2] = (tr[2][0], dict(tr[2][1], resp=('OK',)))
+    rej, _ = core.validate_traces('AuthServer', ['resp', 'st'], [tr], ACTIONS, cfg_consts=trace_cfg(params), nproc=1)
     chk.canary = {'what': 'a REJECTED answer recorded as OK', 'rejected': bool(rej)}
     chk.assumptions = ['stub mechanisms follow the outcome dictated by the schedule; real mechanisms run with a temporary '
                        'keyring and a fake SO_PEERCRED', 'uncaught exceptions escaping dataReceived are projected as close',
